@@ -24,11 +24,32 @@ pub fn load_qt_classes() -> Vec<metatype::Class> {
 }
 
 pub fn load_type_map(extra_metatypes_json: &[&str]) -> TypeMap {
+    let mut extra = vec![];
+    for j in extra_metatypes_json {
+        extra.extend(metatype::extract_classes_from_str(j).unwrap());
+    }
+    load_type_map_with(extra)
+}
+
+/// Classes with names chosen to look like numbered / prefixed Qt names (C10, C16).
+pub fn adversarial_classes() -> Vec<metatype::Class> {
+    vec![
+        metatype::Class::with_supers("Label1", ["QLabel"]),
+        metatype::Class::with_supers("QLabel1", ["QLabel"]),
+        metatype::Class::with_supers("KLabel", ["QLabel"]),
+        metatype::Class::with_supers("Label", ["QLabel"]),
+        metatype::Class::with_supers("Widget2", ["QWidget"]),
+        metatype::Class::with_supers("QWidget1", ["QWidget"]),
+        metatype::Class::with_supers("PushButton1", ["QPushButton"]),
+        metatype::Class::with_supers("Action1", ["QAction"]),
+        metatype::Class::with_supers("VBoxLayout1", ["QVBoxLayout"]),
+    ]
+}
+
+pub fn load_type_map_with(extra: Vec<metatype::Class>) -> TypeMap {
     let mut type_map = TypeMap::with_primitive_types();
     let mut classes = load_qt_classes();
-    for j in extra_metatypes_json {
-        classes.extend(metatype::extract_classes_from_str(j).unwrap());
-    }
+    classes.extend(extra);
     metatype_tweak::apply_all(&mut classes);
     let mut md = ModuleData::with_builtins();
     md.extend(classes);
